@@ -89,6 +89,13 @@ def stepLine (st : Option People) (line : String) : Option People × String :=
                               states := List.replicate m stA, ti := ti, nAlive := [], newDeaths := [] }
           if td.length = tot then (some p, "ok " ++ showPeople p) else (st, "bad-op")
       | _, _, _, _, _, _ => (st, "bad-op")
+  | ["finalize", sc], some p =>
+      -- `Sim.finalize`: the recorded series expressed in people (x pop_scale), as the code's mode / dtypes make them
+      match parseRat? sc with
+      | some sc =>
+          let showS : List (Int × Rat) → String := showList (fun e => s!"{e.1}:{showRat e.2}")
+          (st, s!"ok nalive={showS (finalizeSeries "n_alive" sc p.nAlive)} newdeaths={showS (finalizeSeries "new_deaths" sc p.newDeaths)}")
+      | none => (st, "bad-op")
   | ["plan", bits], _ =>
       -- the rows of the regenerated loop plan scheduled in a sim whose module set gives the distinct non-empty guards
       -- (in order of first occurrence) the truth values `bits`; the population operations one pass issues
